@@ -222,6 +222,7 @@ func runC09(c *ev.Ctx) {
 	}
 	c09Attach(c, strs)
 	c09NonDir(c)
+	c09Replaced(c)
 }
 
 func stripIdx(s string) string {
@@ -380,6 +381,98 @@ func c09NonDir(c *ev.Ctx) {
 				}
 				if len(pth) > 1 && res.Errno() == 0 {
 					c.Violation("C09:walk-through-non-directory-succeeded:"+mode, map[string]any{"path": pth, "reply": res.Msg.String()})
+				}
+				s.P.Close()
+			}
+		}
+	}
+}
+
+// c09Replaced: a fid was bound to a directory; the directory is then removed
+// (through another fid: Tunlinkat, Tremove on a second fid, Trenameat of
+// something over it) and a symlink - or a file - takes its name. The old fid
+// still says "directory", but what the backend would resolve under that name no
+// longer is one: a walk to a child from the old fid must not reach the backend
+// (on a path-resolving backend such as localfs it would step through the
+// symlink, out of the tree).
+func c09Replaced(c *ev.Ctx) {
+	idx := 0
+	for _, how := range []string{"unlinkat", "tremove-second-fid", "tremove-clone", "rename-over"} {
+		for _, with := range []string{"symlink", "file"} {
+			for _, mode := range []string{"walk", "walkgetattr", "walk2"} {
+				idx++
+				if !c.Mine(idx) {
+					continue
+				}
+				name := fmt.Sprintf("replaced:%s:by-%s:%s", how, with, mode)
+				c.Begin("C09 " + name)
+				fs := fixture() // has the empty directory /d
+				fs.MkPath("/outside/secret", p9.ModeRegular|0644, "top secret")
+				fs.MkPath("/e", p9.ModeDirectory|0755, "")
+				srv := p9.NewServer(fs)
+				s, r := newSess(srv, 1<<20, v7)
+				ok := r.OK && s.attach(0, "").Errno() == 0
+				ok = ok && s.walk(0, 1, "d").Errno() == 0 // the fid that stays
+				ok = ok && s.walk(0, 2, "d").Errno() == 0 // a second fid on the same directory
+				if !ok {
+					c.Inconclusive("C09 replaced setup")
+					s.P.Close()
+					continue
+				}
+				var rm rawpeer.Result
+				switch how {
+				case "unlinkat":
+					rm = s.P.RPC(wire.Tunlinkat, u(0), "d", u(0x200))
+				case "tremove-second-fid":
+					rm = s.remove(2)
+				case "tremove-clone":
+					s.walk(1, 3)
+					rm = s.remove(3)
+				case "rename-over":
+					rm = s.renameat(0, "e", 0, "d")
+				}
+				if rm.Errno() != 0 {
+					c.Inconclusive(fmt.Sprintf("C09 %s: removal refused: %s", name, rm.Msg.String()))
+					s.P.Close()
+					continue
+				}
+				if how != "rename-over" {
+					var mk rawpeer.Result
+					if with == "symlink" {
+						mk = s.P.RPC(wire.Tsymlink, u(0), "d", "outside", u(0))
+					} else {
+						mk = s.P.RPC(wire.Tmknod, u(0), "d", u(0100644), u(0), u(0), u(0))
+					}
+					if mk.Errno() != 0 {
+						c.Inconclusive(fmt.Sprintf("C09 %s: replacement refused: %s", name, mk.Msg.String()))
+						s.P.Close()
+						continue
+					}
+				}
+				mark := fs.NCalls()
+				var res rawpeer.Result
+				switch mode {
+				case "walk":
+					res = s.walk(1, 5, "secret")
+				case "walkgetattr":
+					res = s.walkgetattr(1, 5, "secret")
+				default:
+					res = s.walk(1, 5, "secret", "x")
+				}
+				c.Case(name, true)
+				if !res.OK {
+					hang(c, res.Out, res.Dump, "C09:replaced-unanswered", name)
+					s.P.Close()
+					continue
+				}
+				var walks []string
+				for _, cl := range fs.Calls(mark) {
+					if cl.Method == "Walk" || cl.Method == "WalkGetAttr" {
+						walks = append(walks, cl.String())
+					}
+				}
+				if len(walks) > 0 || res.Errno() == 0 {
+					c.Violation("C09:walk-from-a-fid-whose-directory-was-replaced-reached-the-backend:"+how+":by-"+with, map[string]any{"mode": mode, "reply": res.Msg.String(), "backend_walks": walks})
 				}
 				s.P.Close()
 			}
